@@ -59,9 +59,9 @@ type codecCtx struct {
 	p        *Program
 	pk       *packages.Package
 	info     *types.Info
-	recv     *types.Var            // receiver variable of the method
-	recvT    *types.Named          // receiver named type
-	recvFlds map[*types.Var]bool   // fields of the receiver struct
+	recv     *types.Var             // receiver variable of the method
+	recvT    *types.Named           // receiver named type
+	recvFlds map[*types.Var]bool    // fields of the receiver struct
 	methods  map[string]*types.Func // methods of recvT by name
 }
 
